@@ -32,7 +32,9 @@ LITERALS = ["0", "42", "017", "0x1F", "0b101", "42u", "42UL", "42ll", "7LLU", "1
 IDENTS = ["x", "a$b", "_i9", "tt", "intx", "L", "u8"]
 VOCAB = PUNCT + KEYWORDS + LITERALS + IDENTS
 GAPS = ["", " ", "\t", "\n", " \n\t ", "\n# 7 \"inc/f.h\"\n", "\n#line 12\n", "\n# 3 \"b.h\" 1 3 4\n",
-        "\n#pragma omp x y\n", "\n#pragma\n", "\n  #  pragma  pack(1)\n", "\n#line 5 \"c:\\\\w\\\\p.h\"\n"]
+        "\n#pragma omp x y\n", "\n#pragma\n", "\n  #  pragma  pack(1)\n", "\n#line 5 \"c:\\\\w\\\\p.h\"\n",
+        # directives on consecutive lines
+        "\n#pragma p q\n# 9 \"after.h\"\n", "\n#pragma\n#line 4\n", "\n# 2 \"a.h\"\n#pragma z\n", "\n# 2 \"a.h\"\n# 8 \"b.h\" 2\n"]
 
 
 # what may end a text: every gap, directive lines without their newline, and directive lines with text after
